@@ -4,6 +4,9 @@ pub mod codec_common;
 pub mod c01;
 pub mod c02;
 pub mod c03;
+pub mod c08;
+pub mod c12;
+pub mod c16;
 pub mod c17;
 pub mod c20;
 pub mod l1;
@@ -21,6 +24,9 @@ pub fn get(id: &str, tier: Tier) -> Option<Property> {
         "C05" => c05::property(tier),
         "C06" => c06::property(tier),
         "C07" => c07::property(tier),
+        "C08" => c08::property(tier),
+        "C12" => c12::property(tier),
+        "C16" => c16::property(tier),
         "C17" => c17::property(tier),
         "C20" => c20::property(tier),
         _ => return None,
